@@ -143,7 +143,7 @@ def simd():
     import extract_simd
     try:
         extract_simd.generate(REPO, OUT, write_if_changed)
-    except extract_simd.TranslateError as e:
+    except Exception as e:
         # no program: the proof obligation cannot be regenerated; the build fails on the undefined name and the check reports it
         msg = str(e).replace("-/", "- /")
         write_if_changed(os.path.join(OUT, "Simd.lean"), "import Urandom.Model.Simd\n/- tools/extract_simd.py could not translate the current source: %s -/\n"
